@@ -34,6 +34,7 @@ func serviceRandom(fl *drv.Flags, rng *rand.Rand, w *chain.TraceWriter) {
 	provs := e.users[:(nu+1)/2]
 	maxCtx := int(fl.CfgInt("maxctx", 4))
 	varDt := fl.CfgInt("vardt", 1) == 1
+	mods := fl.CfgInt("mods", 1) == 1 // module-owned contexts (keeper calls inside carrier transactions)
 	setPricing := func(ev chain.M, now int64) {
 		ev["price"] = int64(rng.Intn(9))
 		if rng.Intn(14) == 0 {
@@ -167,7 +168,7 @@ func serviceRandom(fl *drv.Flags, rng *rand.Rand, w *chain.TraceWriter) {
 				pending = append(pending, ev)
 			case x < 38 && len(ctxIDs) < maxCtx:
 				name := "Call"
-				if rng.Intn(4) == 0 {
+				if mods && rng.Intn(4) == 0 {
 					name = "ModCall"
 				}
 				ev := svcEvent(name, u)
@@ -247,7 +248,7 @@ func serviceRandom(fl *drv.Flags, rng *rand.Rand, w *chain.TraceWriter) {
 				}
 				names := []string{"Pause", "Start", "Kill", "Update", "Pause", "Start"}
 				name := pick(names)
-				if mod {
+				if mod && mods {
 					name = "Mod" + name
 				}
 				ev := svcEvent(name, who)
